@@ -131,7 +131,8 @@ pub enum Ev {
     Ode { t: f64, y: Vec<f64>, injac: bool },
     Jac { t: f64 },
     Evt { t: f64 },
-    Cb { k: usize, xold: f64, x: f64, y: Vec<f64>, interp: Option<InterpFacts>, ret: String },
+    /// x: as the callback left it; x_in: as the solver passed it (they differ when a script moves x back)
+    Cb { k: usize, xold: f64, x: f64, x_in: f64, y: Vec<f64>, interp: Option<InterpFacts>, ret: String },
     /// a decision point reported by the solver through the verification hook `ivp::verif_trace`
     Hook { tag: &'static str, v: f64 },
 }
@@ -279,7 +280,7 @@ impl<'a> IVP for Instr<'a> {
                 }
             }
             // nonsingular bidiagonal / tridiagonal masses (entries only inside the band the storage must provide)
-            "lowbi" | "upbi" | "tri" | "trineg" => {
+            "lowbi" | "upbi" | "tri" | "trineg" | "perm3" => {
                 for i in 0..n {
                     for (j, v) in mass_row(&self.case.mass, n, i) { m[(i, j)] = v; }
                 }
@@ -299,6 +300,11 @@ impl<'a> IVP for Instr<'a> {
 
 /// entries (column, value) of row i of the named nonsingular banded mass matrix
 pub fn mass_row(kind: &str, n: usize, i: usize) -> Vec<(usize, f64)> {
+    if kind == "perm3" {
+        // [[0,2,0],[1,0,0],[0,0,1]] (n = 3)
+        return match i { 0 => vec![(1, 2.0)], 1 => vec![(0, 1.0)], _ => vec![(i, 1.0)] };
+    }
+    if let Some(k) = kind.strip_prefix("pow2:") { return vec![(i, (2.0f64).powi(k.parse().unwrap_or(0)))]; }
     let (sub, sup) = match kind { "lowbi" => (0.5, 0.0), "upbi" => (0.0, 0.25), "tri" => (0.5, 0.25), _ => (-0.25, -0.375) };
     let mut v = vec![(i, 1.0)];
     if sub != 0.0 && i >= 1 { v.push((i - 1, sub)); }
@@ -318,6 +324,7 @@ impl<'a, 'b> SolOut for RecSolOut<'a, 'b> {
     fn solout(&mut self, xold: f64, x: &mut f64, y: &mut [f64], interpolant: Option<&StepInterpolant<'_>>) -> ControlFlag {
         let k = self.k;
         self.k += 1;
+        let x_in = *x;
         let facts = interpolant.map(|ip| {
             let (lo, hi) = ip.bounds();
             let n = y.len();
@@ -385,6 +392,18 @@ impl<'a, 'b> SolOut for RecSolOut<'a, 'b> {
                 ret = ControlFlag::XOut(if ahead == *x { *x } else { ahead });
                 rets = "XOut";
             }
+            Some("modify_back") => {
+                // restart in the middle of the step just taken: needs the interpolant
+                if let Some(ip) = interpolant {
+                    let xm = xold + 0.5 * (*x - xold);
+                    let mut ym = vec![0.0; y.len()];
+                    ip.interpolate(xm, &mut ym);
+                    *x = xm;
+                    y.copy_from_slice(&ym);
+                    ret = ControlFlag::ModifiedSolution;
+                    rets = "Modified";
+                }
+            }
             Some("modify_x2") => {
                 for v in y.iter_mut() {
                     *v *= 2.0;
@@ -395,7 +414,7 @@ impl<'a, 'b> SolOut for RecSolOut<'a, 'b> {
             _ => {}
         }
         // the state logged is the one the solver continues from (after modification)
-        self.instr.push(Ev::Cb { k, xold, x: *x, y: y.to_vec(), interp: facts, ret: rets.to_string() });
+        self.instr.push(Ev::Cb { k, xold, x: *x, x_in, y: y.to_vec(), interp: facts, ret: rets.to_string() });
         self.yold = y.to_vec();
         ret
     }
@@ -451,6 +470,49 @@ fn err_name(e: &ivp::error::Error) -> String {
     let s = format!("{:?}", e);
     let head: String = s.chars().take_while(|c| c.is_alphanumeric() || *c == '(').collect();
     format!("Err:{}", head.replace('(', "/"))
+}
+
+/// Reference for a nonsingular non-identity mass: y' = M^-1 f integrated by DOP853 at 1e-11 from x0 to tl.
+/// Returns the final state when that run succeeds.
+pub fn mass_reference(case: &Case, tl: f64) -> Option<Vec<f64>> {
+    let n = case.y0.len();
+    if n == 0 || n > 8 { return None; }
+    struct Inv<'a> { p: &'a Problem, kind: &'a str, n: usize }
+    impl<'a> IVP for Inv<'a> {
+        fn ode(&self, x: f64, y: &[f64], d: &mut [f64]) {
+            let n = self.n;
+            let mut a = vec![0.0; n * n];
+            for i in 0..n { for (j, v) in mass_row(self.kind, n, i) { a[i * n + j] = v; } }
+            let mut b = vec![0.0; n];
+            self.p.f(x, y, &mut b);
+            // Gaussian elimination with partial pivoting (n <= 8)
+            for k in 0..n {
+                let mut piv = k;
+                for r in k + 1..n { if a[r * n + k].abs() > a[piv * n + k].abs() { piv = r; } }
+                if piv != k { for c in 0..n { a.swap(k * n + c, piv * n + c); } b.swap(k, piv); }
+                for r in k + 1..n {
+                    let f = a[r * n + k] / a[k * n + k];
+                    for c in k..n { a[r * n + c] -= f * a[k * n + c]; }
+                    b[r] -= f * b[k];
+                }
+            }
+            for k in (0..n).rev() {
+                let mut v = b[k];
+                for c in k + 1..n { v -= a[k * n + c] * d[c]; }
+                d[k] = v / a[k * n + k];
+            }
+        }
+    }
+    let inv = Inv { p: &case.problem, kind: case.mass.as_str(), n };
+    let o = Options::builder().method(Method::DOP853).rtol(Tolerance::Scalar(1e-11)).atol(Tolerance::Scalar(1e-13)).build();
+    match catch(|| solve_ivp(&inv, case.x0, tl, &case.y0, o)) {
+        Ok(Ok(r)) if r.status == Status::Success => r.y.last().cloned(),
+        _ => None,
+    }
+}
+
+pub fn has_reference_mass(case: &Case) -> bool {
+    matches!(case.mass.as_str(), "lowbi" | "upbi" | "tri" | "trineg" | "perm3") || case.mass.starts_with("pow2:")
 }
 
 /// Redo one accepted step (xold, yold) -> x with a freshly built low-level solver of the same method and options and
@@ -634,9 +696,10 @@ pub fn trace(case: &Case, instr: &Instr, out: &Outcome) -> Vec<Value> {
         match e {
             Ev::Hook { .. } => {}
             Ev::Ode { t, .. } | Ev::Jac { t } | Ev::Evt { t } => rk.add(*t),
-            Ev::Cb { xold, x, interp, .. } => {
+            Ev::Cb { xold, x, x_in, interp, .. } => {
                 rk.add(*xold);
                 rk.add(*x);
+                rk.add(*x_in);
                 if let Some(f) = interp { rk.add(f.lo); rk.add(f.hi); }
             }
         }
@@ -752,19 +815,19 @@ pub fn trace(case: &Case, instr: &Instr, out: &Outcome) -> Vec<Value> {
             // decision points of the solver's main loop (values classified here: the trace carries no floats)
             Ev::Hook { tag, v } => lines.push(json!({"e": "hk", "t": tag, "small": *v < 0.001, "ge1": *v >= 1.0, "le1": *v <= 1.0,
                                                      "n": if v.is_finite() && v.fract() == 0.0 && v.abs() < 1e9 { *v as i64 } else { -1 }})),
-            Ev::Cb { k, xold, x, y, interp, ret } => {
+            Ev::Cb { k, xold, x, x_in, y, interp, ret } => {
                 let contig = contig_of[idx];
                 let prev_h = prev_h_of[idx];
                 let ip = interp.as_ref().map(|f| json!({
                     "lo": tj(f.lo), "hi": tj(f.hi),
-                    "b_ok": (f.lo - xold.min(*x)).abs() <= ulps(scale.max(f.lo.abs()), 8.0) && (f.hi - xold.max(*x)).abs() <= ulps(scale.max(f.hi.abs()), 8.0),
+                    "b_ok": (f.lo - xold.min(*x_in)).abs() <= ulps(scale.max(f.lo.abs()), 8.0) && (f.hi - xold.max(*x_in)).abs() <= ulps(scale.max(f.hi.abs()), 8.0),
                     "rs_ok": !(f.rs_err > 1e-9), "rs": f.rs_err >= 0.0,
                     "l_ok": f.l_err <= 1.0 || !f.finite,
                     "r_ok": f.r_err <= 1.0 || !f.finite,
                     "ord": f.ord, "heq": prev_h.map(|p: f64| p.abs().to_bits() == f.h.abs().to_bits()).unwrap_or(false),
                     "lre": [if f.l_err > 0.0 { f.l_err.log10().floor() as i64 } else { -999 }, if f.r_err > 0.0 { f.r_err.log10().floor() as i64 } else { -999 }],
                     "fin": f.finite})).unwrap_or(json!({"b_ok": true, "rs_ok": true, "rs": false, "l_ok": true, "r_ok": true, "fin": true, "ord": 0, "heq": false}));
-                lines.push(json!({"e": "cb", "k": k, "xold": tj(*xold), "x": tj(*x), "d": dg(idx, *x, y), "y": toks(y), "contig": contig,
+                lines.push(json!({"e": "cb", "k": k, "xold": tj(*xold), "x": tj(*x), "xin": tj(*x_in), "d": dg(idx, *x, y), "y": toks(y), "contig": contig,
                                   "fin": y.iter().all(|v| v.is_finite()), "ip": ip, "hasip": interp.is_some(), "ret": ret}));
             }
         }
@@ -784,7 +847,11 @@ pub fn trace(case: &Case, instr: &Instr, out: &Outcome) -> Vec<Value> {
     let oded: Vec<String> = log.iter().enumerate().filter_map(|(i, e)| match e { Ev::Ode { t, y, injac: false } => Some(dg(i, *t, y)), _ => None }).take(CAP).collect();
     let cbd: Vec<String> = log.iter().enumerate().filter_map(|(i, e)| match e { Ev::Cb { x, y, .. } => Some(dg(i, *x, y)), _ => None }).take(CAP).collect();
     match out {
-        Outcome::Abort(why, msg) => lines.push(json!({"e": "abort", "id": case.id, "why": why, "msg": msg})),
+        Outcome::Abort(why, msg) => {
+            // a run with a reference-able mass that was cut by the work budget although y' = M^-1 f is solvable
+            let unsolved = has_reference_mass(case) && case.max_steps.is_none() && mass_reference(case, case.xend).is_some();
+            lines.push(json!({"e": "abort", "id": case.id, "why": why, "msg": msg, "mass_unsolved": unsolved}));
+        }
         Outcome::Err(name) => lines.push(json!({"e": "ret", "id": case.id, "kind": "err", "status": name, "fs": fs_fact})),
         Outcome::Low { status, h: _, nfev, njev, nlu, nstep, naccpt, nrejct } => {
             lines.push(json!({"e": "ret", "id": case.id, "kind": "low", "status": status, "nfev": nfev, "njev": njev, "nlu": nlu,
@@ -943,7 +1010,9 @@ fn ret_line(case: &Case, s: &Solution, rk: &Ranker, fs_fact: Value, dir: f64, ti
         let ms = ms.abs();
         // the reported intervals are the accepted steps only when nothing was filtered: no t_eval / first_step pinning,
         // and no step below the handler's 1e-12 duplicate filter (then naccpt + 1 samples are stored)
-        if case.t_eval.is_none() && !(case.first_step.is_some()) && s.naccpt + 1 == s.t.len() {
+        // (with first_step the pinned first output splits a step: every reported interval is still part of one step)
+        let fs_in_scope = case.first_step.map_or(false, |h0| h0.abs() <= ms && h0.abs() <= (case.xend - case.x0).abs());
+        if case.t_eval.is_none() && ((case.first_step.is_none() && s.naccpt + 1 == s.t.len()) || (fs_in_scope && !tiny && case.method != "RK4")) {
             let m = s.t.len();
             for i in 0..m.saturating_sub(1) {
                 let h = (s.t[i + 1] - s.t[i]).abs();
@@ -995,46 +1064,15 @@ fn ret_line(case: &Case, s: &Solution, rk: &Ranker, fs_fact: Value, dir: f64, ti
     }
     // nonsingular non-identity mass: the result agrees with integrating y' = M^-1 f directly (DOP853 at 1e-11)
     let mut massref = json!({"has": false, "ok": true});
-    if matches!(case.mass.as_str(), "lowbi" | "upbi" | "tri" | "trineg") && case.problem.copies == 1 && n > 0
-        && (s.status == Status::Success || case.max_steps.is_none()) {
-        struct Inv<'a> { p: &'a Problem, kind: &'a str, n: usize }
-        impl<'a> IVP for Inv<'a> {
-            fn ode(&self, x: f64, y: &[f64], d: &mut [f64]) {
-                let n = self.n;
-                let mut a = vec![0.0; n * n];
-                for i in 0..n { for (j, v) in mass_row(self.kind, n, i) { a[i * n + j] = v; } }
-                let mut b = vec![0.0; n];
-                self.p.f(x, y, &mut b);
-                // Gaussian elimination with partial pivoting (n <= 4)
-                for k in 0..n {
-                    let mut piv = k;
-                    for r in k + 1..n { if a[r * n + k].abs() > a[piv * n + k].abs() { piv = r; } }
-                    if piv != k { for c in 0..n { a.swap(k * n + c, piv * n + c); } b.swap(k, piv); }
-                    for r in k + 1..n {
-                        let f = a[r * n + k] / a[k * n + k];
-                        for c in k..n { a[r * n + c] -= f * a[k * n + c]; }
-                        b[r] -= f * b[k];
-                    }
-                }
-                for k in (0..n).rev() {
-                    let mut v = b[k];
-                    for c in k + 1..n { v -= a[k * n + c] * d[c]; }
-                    d[k] = v / a[k * n + k];
-                }
-            }
-        }
-        let inv = Inv { p: &case.problem, kind: case.mass.as_str(), n };
-        let o = Options::builder().method(Method::DOP853).rtol(Tolerance::Scalar(1e-11)).atol(Tolerance::Scalar(1e-13)).build();
+    if has_reference_mass(case) && n > 0 && (s.status == Status::Success || case.max_steps.is_none()) {
         // the reference runs over the whole interval: where it succeeds (the problem is solvable) Radau must succeed too
         let solved = s.status == Status::Success;
         let tl = if solved { *s.t.last().unwrap() } else { case.xend };
         let thr = 1.0e3 * (case.rtol[0] + case.atol[0]);
-        if let Ok(Ok(r)) = catch(|| solve_ivp(&inv, case.x0, tl, &case.y0, o)) {
-            if r.status == Status::Success {
-                let (ya, yb) = (s.y.last().unwrap(), r.y.last().unwrap());
-                let ok = solved && ya.iter().zip(yb.iter()).all(|(a, b)| (a - b).abs() <= thr * (1.0 + b.abs()));
-                massref = json!({"has": true, "ok": ok});
-            }
+        if let Some(yb) = mass_reference(case, tl) {
+            let ya = s.y.last().unwrap();
+            let ok = solved && ya.iter().zip(yb.iter()).all(|(a, b)| (a - b).abs() <= thr * (1.0 + b.abs()));
+            massref = json!({"has": true, "ok": ok});
         }
     }
     json!({
